@@ -3,7 +3,8 @@
    do nothing if it ran its lock region on the current tracker; hence when no
    internal action is enabled every pending Send has its message in the slot,
    transmitted in the current epoch, and waits only for the relay. *)
-From Bifrost Require Import Lib.Base SignalClient.Model SignalClient.Proofs SignalClient.ProofsProgress.
+From Bifrost Require Import Lib.Base SignalClient.Model SignalClient.Proofs SignalClient.ProofsProgress
+  SignalClient.StepCases SignalClient.Compose SignalClient.ProofsLink.
 
 Ltac crush :=
   cbn in *;
@@ -50,13 +51,13 @@ Proof. unfold h_recv_iter. intros H. crush. Qed.
 Lemma reader_quiet c r t t' : reader c r t = Ok (t', false) -> t' = t.
 Proof.
   destruct r as [n|[|]|[m|]|n|n| |]; cbn [reader]; intros H; try discriminate.
-  - injection H as H. eapply open_quiet; eauto.
-  - injection H as H. eapply close_quiet; eauto.
+  - assert (E : h_open n t = (t', false)) by congruence. exact (open_quiet _ _ _ E).
+  - assert (E : h_close t = (t', false)) by congruence. exact (close_quiet _ _ E).
   - inversion H; auto.
   - unfold obind in H. destruct (check_recv (peer_key c) m) as [[]| |]; inversion H.
   - inversion H; auto.
-  - injection H as H. eapply ack_quiet; eauto.
-  - injection H as H. eapply clear_quiet; eauto.
+  - assert (E : h_ack n t = (t', false)) by congruence. exact (ack_quiet _ _ _ E).
+  - assert (E : h_clear n t = (t', false)) by congruence. exact (clear_quiet _ _ _ E).
 Qed.
 
 (* a Send iteration that ends waiting would wait again *)
@@ -74,6 +75,9 @@ Proof.
     try reflexivity.
   all: try (destruct (A eq_refl) as (A1 & A2 & A3)).
   all: unfold seq_is; rewrite ?Z.eqb_refl; cbn; rewrite ?A2; cbn; try reflexivity.
+  all: destruct (t_out t') as [o|] eqn:Eout; cbn in *; rewrite ?andb_false_r, ?andb_true_r in *; cbn in *; try discriminate; try reflexivity.
+  all: repeat match goal with Hx : _ = _ |- _ => rewrite Hx; cbn end; try reflexivity.
+  all: destruct (s_txed cl); destruct (m_seq o =? m_seq (s_msg cl)); cbn in *; try discriminate; reflexivity.
 Qed.
 
 Lemma wake_not_wait w : wake w <> WWait.
@@ -116,7 +120,7 @@ Proof.
     + assert (Hq : b = false -> t' = tk s) by (intros ->; eapply reader_quiet; eauto).
       destruct (WInv_region s t' b W Hq) as (A & B & C). unfold WInv. rewrite tk_bcast_if'. cbn [tk set_tk]. auto.
     + split; [|split]; auto. cbn. intros cn' E. inversion E; subst. intros Hw. cbn in Hw.
-      apply (Wc cn Ec Hw).
+      apply (Wc cn eq_refl Hw).
   - destruct (conn s) as [cn|] eqn:Ec; [|discriminate]. destruct (runnable (c_w cn)); [|discriminate].
     destruct (h_loop (tk s)) as [t' la] eqn:E.
     destruct la; inversion St; subst.
@@ -182,15 +186,226 @@ Proof.
 Qed.
 
 (* ------------------------------------------------------------------ *)
+(* ownership: a running Send whose message sits in the slot knows it    *)
+(* (this is what the fix of Send across a re-open restored)             *)
+
+Definition closed_ok (t : tracker) : Prop := t_open t = None -> t_out t = None.
+
+Definition own_ok (t : tracker) (cl : scall) : Prop :=
+  s_st cl = SRun -> forall o, t_out t = Some o -> m_seq o = m_seq (s_msg cl) -> s_txed cl = true.
+
+Definition OwnInv (s : cstate) : Prop :=
+  invM s /\ closed_ok (tk s) /\
+  forall i cl, nth_error (sends s) i = Some cl -> own_ok (tk s) cl.
+
+Lemma closed_region a t t' o : region a t t' o -> closed_ok t -> closed_ok t'.
+Proof.
+  unfold closed_ok. intros R C. destruct R; auto.
+  - destruct r as [n|[|]|[m|]|n|n| |]; cbn [reader] in H; try discriminate.
+    + unfold h_open in H. destruct (zopt_eqb (t_open t) (Some n)); inversion H; subst; auto. cbn. discriminate.
+    + unfold h_close in H. inversion H; subst. auto.
+    + inversion H; subst; auto.
+    + unfold obind in H. destruct (check_recv (peer_key c) m) as [[]| |]; inversion H; subst. cbn. auto.
+    + inversion H; subst; auto.
+    + unfold h_ack in H. destruct (seq_is (t_out t) n); [destruct (t_cancel t)|]; inversion H; subst; cbn; auto.
+    + unfold h_clear in H. destruct (seq_is (t_recv t) n); inversion H; subst; cbn; auto.
+  - unfold h_loop in H. intros E. repeat match type of H with context [match ?x with _ => _ end] => destruct x eqn:? end; inversion H; subst; cbn in *; auto; try congruence.
+  - unfold h_close in H. inversion H; subst. auto.
+  - unfold h_send_iter in H. intros E. repeat match type of H with context [match ?x with _ => _ end] => destruct x eqn:? end; inversion H; subst; cbn in *; auto; try congruence.
+  - unfold h_send_cancel in H. intros E. repeat match type of H with context [match ?x with _ => _ end] => destruct x eqn:? end; inversion H; subst; cbn in *; auto; try congruence.
+  - unfold h_recv_iter in H. intros E. repeat match type of H with context [match ?x with _ => _ end] => destruct x eqn:? end; inversion H; subst; cbn in *; auto; try congruence.
+Qed.
+
+Lemma own_ok_weaken t t' cl : own_ok t cl -> (t_out t' = t_out t \/ t_out t' = None) -> own_ok t' cl.
+Proof. intros O [E|E] Hs o Ho; rewrite E in Ho; [eauto|discriminate]. Qed.
+
+Lemma nth_error_upd {A} i j (x : A) l :
+  nth_error (upd_nth i x l) j = if Nat.eqb i j then (match nth_error l i with Some _ => Some x | None => None end) else nth_error l j.
+Proof.
+  revert i j; induction l as [|y l IH]; intros i j.
+  - destruct i, j; cbn; try reflexivity; destruct (Nat.eqb i j); reflexivity.
+  - destruct i, j; cbn; auto.
+Qed.
+
+(* what a step does to the send slot and to the Send calls *)
+Lemma out_region a t t' o :
+  region a t t' o ->
+  t_out t' = t_out t \/ t_out t' = None \/
+  (exists i cl b cl', a = ASendIter i /\ h_send_iter t cl = (t', b, cl') /\ t_out t = None /\ t_out t' = Some (s_msg cl)).
+Proof.
+  intros R. destruct R; auto.
+  - destruct (out_reader _ _ _ _ _ H); auto.
+  - destruct (out_loop _ _ _ H) as [[E|E] _]; auto.
+  - unfold h_close in H. inversion H; subst; auto.
+  - pose proof H as H'. unfold h_send_iter in H'.
+    repeat match type of H' with context [match ?x with _ => _ end] => destruct x eqn:? end;
+      inversion H'; subst; cbn; auto.
+    all: right; right; exists i, cl; eexists; eexists; repeat split; eauto.
+  - destruct (out_send_cancel _ _ _ _ H); auto.
+  - left. eapply out_recv_iter; eauto.
+Qed.
+
+Lemma send_iter_own t cl t' b cl' :
+  closed_ok t -> s_st cl = SRun -> own_ok t cl -> h_send_iter t cl = (t', b, cl') -> own_ok t' cl'.
+Proof.
+  intros C Hrun O E Hs o Ho Hq. unfold h_send_iter in E.
+  repeat match type of E with context [match ?x with _ => _ end] => destruct x eqn:? end;
+    inversion E; subst; clear E; cbn in *; auto; try discriminate.
+  all: try (rewrite (C eq_refl) in Ho; discriminate).
+  all: try congruence.
+  all: try (inversion Ho; subst;
+            repeat match goal with Hx : context [seq_is (Some ?m) _] |- _ => unfold seq_is in Hx end;
+            rewrite ?Hq, ?Z.eqb_refl in *; cbn in *;
+            rewrite ?andb_true_r, ?andb_false_r in *; cbn in *; try discriminate).
+  all: try (destruct (s_txed cl); cbn in *; try discriminate; auto; fail).
+  all: rewrite ?Ho in *; cbn in *; unfold seq_is in *; rewrite ?Hq, ?Z.eqb_refl in *; cbn in *;
+       rewrite ?andb_true_r, ?andb_false_r in *; cbn in *; try discriminate.
+  all: try (pose proof (O Hrun _ eq_refl Hq) as Ht; rewrite Ht in *; cbn in *; try discriminate).
+  all: repeat match goal with Hx : Some _ = Some _ |- _ => inversion Hx; subst; clear Hx end.
+  all: pose proof (O Hrun _ Ho Hq) as Ht; rewrite ?Ht, ?Hq, ?Z.eqb_refl in *; cbn in *; try discriminate; try congruence.
+  all: match goal with Hc : t_open _ = None |- _ => rewrite (C Hc) in Ho; discriminate end.
+Qed.
+
+Definition own_all (t : tracker) (l : list scall) : Prop :=
+  forall i cl, nth_error l i = Some cl -> own_ok t cl.
+
+Lemma own_all_wake t l : own_all t l -> own_all t (map wake_s l).
+Proof.
+  intros O i cl Hn. rewrite nth_error_map in Hn. destruct (nth_error l i) as [c0|] eqn:E; inversion Hn; subst.
+  intros Hs o Ho Hq. cbn in *. eapply (O i c0 E); eauto.
+Qed.
+
+Lemma own_all_bif t b s0 : own_all t (sends s0) -> own_all t (sends (bcast_if b s0)).
+Proof. destruct b; cbn; auto. apply own_all_wake. Qed.
+
+Lemma own_all_weaken t t' l : own_all t l -> (t_out t' = t_out t \/ t_out t' = None) -> own_all t' l.
+Proof. intros O E i cl Hn. eapply own_ok_weaken; eauto. Qed.
+
+Lemma own_all_upd t i x l : own_all t l -> own_ok t x -> own_all t (upd_nth i x l).
+Proof.
+  intros O Ox j cl Hn. rewrite nth_error_upd in Hn. destruct (Nat.eqb i j).
+  - destruct (nth_error l i); inversion Hn; subst; auto.
+  - eauto.
+Qed.
+
+Lemma out_bif_quiet c r t t' b : reader c r t = Ok (t', b) -> t_out t' = t_out t \/ t_out t' = None.
+Proof. apply out_reader. Qed.
+
+Lemma step_OwnInv c s a s' o : OwnInv s -> step c s a = Some (s', o) -> OwnInv s'.
+Proof.
+  intros (IM & CL & OW) St. fold (own_all (tk s) (sends s)) in OW.
+  destruct (step_invM _ _ _ _ _ St IM) as (IM' & _ & _).
+  pose proof (closed_region _ _ _ _ (step_region _ _ _ _ _ St) CL) as CL'.
+  split; [exact IM'|split; [exact CL'|]]. fold (own_all (tk s') (sends s')). clear IM' CL'.
+  destruct a; cbn [step] in St.
+  - destruct (conn s); inversion St; subst; exact OW.
+  - destruct (conn s) as [cn|]; [|discriminate]. destruct (c_rerr cn); [discriminate|].
+    destruct (reader c r (tk s)) as [[t' b]|k|] eqn:ER; [| |discriminate]; inversion St; subst; [|exact OW].
+    rewrite tk_bcast_if'. cbn [tk set_tk]. apply own_all_bif. cbn [sends set_tk].
+    eapply own_all_weaken; eauto. eapply out_reader; eauto.
+  - destruct (conn s) as [cn|]; [|discriminate]. destruct (runnable (c_w cn)); [|discriminate].
+    destruct (h_loop (tk s)) as [t' la] eqn:E. destruct (out_loop _ _ _ E) as [Ho _].
+    destruct la; inversion St; subst; cbn [tk sends set_conn bcast set_tk]; auto;
+      apply own_all_wake; eapply own_all_weaken; eauto.
+  - destruct (conn s) as [cn|]; [|discriminate]. destruct (c_rerr cn); [|discriminate].
+    destruct (blocked (c_w cn)); [|discriminate]. unfold conn_end in St.
+    destruct (h_close (tk s)) as [t' b] eqn:E. inversion St; subst. cbn [tk sends set_conn].
+    rewrite tk_bcast_if'. cbn [tk set_tk]. apply own_all_bif. cbn [sends set_tk].
+    eapply own_all_weaken; eauto. right. unfold h_close in E. inversion E; reflexivity.
+  - destruct (conn s) as [cn|]; [|discriminate]. unfold conn_end in St.
+    destruct (h_close (tk s)) as [t' b] eqn:E. inversion St; subst. cbn [tk sends set_conn].
+    rewrite tk_bcast_if'. cbn [tk set_tk]. apply own_all_bif. cbn [sends set_tk].
+    eapply own_all_weaken; eauto. right. unfold h_close in E. inversion E; reflexivity.
+  - (* ASendStart: the new message has a fresh sequence number *)
+    destruct IM as (U & N & O).
+    assert (G : forall st, own_all (tk s) (sends s ++ [mkS (sign_msg (self_key c) body (nonce s + 1)) false None WReady st])).
+    { intros st i cl Hn. destruct (Nat.lt_ge_cases i (length (sends s))) as [Hl|Hl].
+      - rewrite nth_error_app1 in Hn by exact Hl. eauto.
+      - rewrite nth_error_app2 in Hn by exact Hl.
+        destruct (i - length (sends s))%nat as [|k]; cbn in Hn; [|destruct k; discriminate].
+        inversion Hn; subst. intros _ o0 Ho Hq. exfalso. cbn in Hq.
+        apply O in Ho. apply In_nth_error in Ho as [j Hj]. pose proof (U _ _ Hj) as Hs.
+        assert (j < length (msgs s))%nat by (apply nth_error_Some; congruence).
+        unfold msgs in H. rewrite map_length in H. lia. }
+    destruct body; inversion St; subst; cbn [tk sends]; apply G.
+  - destruct (nth_error (sends s) i) as [cl|] eqn:En; [|discriminate].
+    destruct (s_st cl) eqn:Est; try discriminate. destruct (runnable (s_w cl)); [|discriminate].
+    destruct (h_send_iter (tk s) cl) as [[t' b] cl'] eqn:E. inversion St; subst.
+    cbn [tk sends set_send]. rewrite tk_bcast_if'. cbn [tk set_tk].
+    assert (Own' : own_ok t' cl') by (eapply send_iter_own; eauto).
+    destruct (out_send_iter _ _ _ _ _ E) as [_ Hout].
+    destruct Hout as [Ho|[Ho|Ho]].
+    + apply own_all_upd; auto. apply own_all_bif. cbn [sends set_tk]. eapply own_all_weaken; eauto.
+    + apply own_all_upd; auto. apply own_all_bif. cbn [sends set_tk]. eapply own_all_weaken; eauto.
+    + (* placed its message: nobody else has this sequence number *)
+      destruct IM as (U & N & O).
+      intros j c2 Hn. rewrite nth_error_upd in Hn. destruct (Nat.eqb i j) eqn:Eij.
+      * destruct (nth_error (sends (bcast_if b (set_tk t' s))) i); inversion Hn; subst; auto.
+      * assert (Hj : exists c0, nth_error (sends s) j = Some c0 /\ s_msg c2 = s_msg c0).
+        { destruct b; cbn in Hn.
+          - rewrite nth_error_map in Hn. destruct (nth_error (sends s) j) as [c0|]; inversion Hn; subst. eauto.
+          - eauto. }
+        destruct Hj as (c0 & Hc0 & Hm). intros _ o0 Ho0 Hq. exfalso.
+        rewrite Ho in Ho0. inversion Ho0; subst o0. rewrite Hm in Hq.
+        assert (H1 : nth_error (msgs s) i = Some (s_msg cl)) by (unfold msgs; rewrite nth_error_map, En; reflexivity).
+        assert (H2 : nth_error (msgs s) j = Some (s_msg c0)) by (unfold msgs; rewrite nth_error_map, Hc0; reflexivity).
+        pose proof (U _ _ H1). pose proof (U _ _ H2). apply Nat.eqb_neq in Eij. lia.
+  - destruct (nth_error (sends s) i) as [cl|] eqn:En; [|discriminate].
+    destruct (s_st cl); try discriminate. destruct (blocked (s_w cl)); [|discriminate].
+    destruct (h_send_cancel (tk s) cl) as [t' b] eqn:E. inversion St; subst.
+    cbn [tk sends set_send]. rewrite tk_bcast_if'. cbn [tk set_tk].
+    apply own_all_upd; [|intros Hs; discriminate].
+    apply own_all_bif. cbn [sends set_tk]. eapply own_all_weaken; eauto. eapply out_send_cancel; eauto.
+  - inversion St; subst; exact OW.
+  - destruct (nth_error (recvs s) j) as [cl|]; [|discriminate].
+    destruct (r_st cl); try discriminate. destruct (runnable (r_w cl)); [|discriminate].
+    destruct (h_recv_iter (tk s)) as [t' [m|]] eqn:E; inversion St; subst; [|exact OW].
+    cbn [tk sends set_recv bcast set_tk]. apply own_all_wake. eapply own_all_weaken; eauto.
+    left. eapply out_recv_iter; eauto.
+  - destruct (nth_error (recvs s) j) as [cl|]; [|discriminate].
+    destruct (r_st cl); try discriminate. destruct (blocked (r_w cl)); [|discriminate].
+    inversion St; subst; exact OW.
+Qed.
+
+Lemma OwnInv_init : OwnInv c_init.
+Proof. split; [apply invM_init|split; [intros _; reflexivity|]]. intros [|i] cl H; discriminate. Qed.
+
+Lemma run_OwnInv c acts : forall s s' tr, OwnInv s -> run c s acts = (s', tr) -> OwnInv s'.
+Proof.
+  induction acts as [|a acts IH]; intros s s' tr I R; cbn [run] in R.
+  - inversion R; subst; auto.
+  - destruct (exec c s a) as [s1 o1] eqn:E1. destruct (run c s1 acts) as [s2 o2] eqn:E2. inversion R; subst.
+    unfold exec in E1. destruct (step c s a) as [[sx ox]|] eqn:Es; inversion E1; subst.
+    + eapply IH; [|exact E2]. eapply step_OwnInv; eauto.
+    + eapply IH; eauto.
+Qed.
+
+(* ------------------------------------------------------------------ *)
 (* quiescence                                                          *)
 
 Lemma first_enabled_none c s l : first_enabled c s l = None -> forall a, In a l -> step c s a = None.
 Proof.
-  induction l as [|x l IH]; cbn; intros H a [->|Hi].
-  - destruct (step c s a); [discriminate|reflexivity].
-  - destruct (step c s x); [discriminate|]. auto.
-  - destruct Hi.
-  - destruct Hi.
+  induction l as [|x l IH]; cbn; intros H a Hi; [destruct Hi|].
+  destruct (step c s x) eqn:E; [discriminate|]. destruct Hi as [->|Hi]; auto.
+Qed.
+
+Lemma send_wait_owner t cl e o :
+  t_open t = Some e -> t_out t = Some o -> m_seq o = m_seq (s_msg cl) -> s_txed cl = true ->
+  h_send_iter t cl = (t, false, cl) ->
+  t_acked t = false /\ s_sess cl = Some e.
+Proof.
+  intros Eo Ho Hq Ht. destruct cl as [msg txed sess w st]. unfold h_send_iter. cbn in *. subst txed. rewrite Eo, Ho. cbn.
+  unfold seq_is. rewrite Hq, Z.eqb_refl. cbn.
+  destruct (zopt_eqb sess (Some e)) eqn:Ez; cbn; destruct (t_acked t) eqn:Ea; cbn;
+    intros H; inversion H; subst; repeat split; auto;
+    try (unfold zopt_eqb, option_eqb in Ez; destruct sess; try discriminate; apply Z.eqb_eq in Ez; congruence).
+Qed.
+
+Lemma send_wait_slot t cl e :
+  t_open t = Some e -> t_out t = None -> h_send_iter t cl = (t, false, cl) -> False.
+Proof.
+  intros Eo Ho. unfold h_send_iter. rewrite Eo, Ho. cbn. rewrite !andb_false_r. cbn.
+  destruct (negb (zopt_eqb (s_sess cl) (Some e))); cbn; rewrite ?andb_false_r; cbn; intros H; inversion H.
 Qed.
 
 Theorem client_quiescent_sends : forall c acts s tr cn e,
@@ -201,6 +416,7 @@ Theorem client_quiescent_sends : forall c acts s tr cn e,
   (* every pending Send *)
   (forall i cl, nth_error (sends s) i = Some cl -> s_st cl = SRun ->
      exists o, t_out (tk s) = Some o /\ t_sent (tk s) = true /\ t_cancel (tk s) = false /\
+               (* if it is this Send's own message, the Send knows it and the ack is outstanding *)
                (m_seq o = m_seq (s_msg cl) -> t_acked (tk s) = false /\ s_txed cl = true /\ s_sess cl = Some e)) /\
   (* a pending Recv means there is nothing to hand over *)
   (forall j cl, nth_error (recvs s) j = Some cl -> r_st cl = RRun ->
@@ -212,6 +428,8 @@ Proof.
   assert (Fl : flags_inv (tk s)) by (eapply run_flags; [apply flags_init|exact R]).
   assert (W : WInv s) by (eapply run_WInv; [apply flags_init|apply WInv_init|exact R]).
   destruct W as (Ws & Wr & Wc).
+  assert (OI : OwnInv s) by (eapply run_OwnInv; [apply OwnInv_init|exact R]).
+  destruct OI as (_ & _ & OW).
   unfold quiescent in Q. destruct (first_enabled c s (internal_candidates s)) eqn:Ef; [discriminate|].
   pose proof (first_enabled_none _ _ _ Ef) as Hn. clear Q Ef.
   (* the loop waits *)
@@ -236,18 +454,12 @@ Proof.
     assert (Hw : s_w cl = WWait).
     { destruct (s_w cl); cbn in Hn; auto; destruct (h_send_iter (tk s) cl) as [[? ?] ?]; discriminate. }
     rewrite Forall_forall in Ws. pose proof (Ws cl (nth_error_In _ _ En) Hs Hw) as Hst.
-    unfold h_send_iter in Hst. rewrite Eo in Hst.
     destruct (t_out (tk s)) as [o|] eqn:Ho.
-    + exists o. destruct (Hlp o eq_refl) as [Hc Hse]. repeat split; auto; intros Hq.
-      all: revert Hst; cbn; unfold seq_is; rewrite Hq, Z.eqb_refl; cbn.
-      all: destruct (zopt_eqb (s_sess cl) (Some e)) eqn:Ez; cbn; rewrite ?andb_true_r, ?andb_false_r; cbn.
-      all: destruct (s_txed cl) eqn:Et; cbn; try (destruct (t_acked (tk s)); intros Hx; inversion Hx; fail).
-      all: try (intros Hx; inversion Hx; fail).
-      all: try (destruct (t_acked (tk s)) eqn:Ea; intros Hx; inversion Hx; auto; fail).
-      all: try (unfold zopt_eqb, option_eqb in Ez; destruct (s_sess cl); try discriminate; apply Z.eqb_eq in Ez; subst; auto).
-      all: try (destruct (t_acked (tk s)) eqn:Ea; intros Hx; inversion Hx; try congruence; auto).
-    + exfalso. revert Hst. cbn. replace (_ && false) with false by (rewrite andb_false_r; reflexivity).
-      destruct (negb (zopt_eqb (s_sess cl) (Some e))); cbn; rewrite ?andb_false_r; cbn; intros Hx; inversion Hx.
+    + exists o. destruct (Hlp o eq_refl) as [Hc Hse].
+      split; [reflexivity|]. split; [exact Hse|]. split; [exact Hc|]. intros Hq.
+      pose proof (OW i cl En Hs o Ho Hq) as Ht.
+      destruct (send_wait_owner _ _ _ _ Eo Ho Hq Ht Hst) as (A1 & A3). auto.
+    + exfalso. eapply send_wait_slot; eauto.
   - intros j cl En Hs.
     assert (Hi : In (ARecvIter j) (internal_candidates s)).
     { unfold internal_candidates. apply in_or_app. right. apply in_or_app. right.
